@@ -62,7 +62,8 @@ class C46(SchedProp):
             'corpus of warm-start graphs; non-trivial = distinct (kind, warm/cold, ending, launch-count) class per distinct case')
     gen_opts = {'p_startcp': 0.7, 'p_abs': 0.25, 'abs_forms': ['^', '^+P1', 'icp+1'], 'p_intercycle': 0.5,
                 'p_sequential': 0.2, 'max_span': 4}
-    n_quick = 160
+    n_quick = 128
+    n_thorough = 1500
 
     def corpus(self):
         return [
